@@ -9,7 +9,7 @@ ASSUMPTIONS = [
     "step-local scratch fields (written before they are read in every step) are treated as locals by the translator's flow-sensitive pass",
     "C07 (seeding) holds, so a used and a fresh instance can be compared run for run",
 ]
-MODULES = ["PvModel.Props.C08", "PvModel.Props.T08", "PvModel.Props.T04"]
+MODULES = ["PvModel.Props.C08", "PvModel.Props.T08", "PvModel.Props.T04", "PvModel.Props.R00"]
 
 
 def run(ctx):
@@ -18,7 +18,7 @@ def run(ctx):
     rng = ctx.rng
     n = 3 if not ctx.thorough else 12
     ctx.rule("all exported optimizers × histories of 1..2 earlier optimize() calls on the same instance (same task / other task of another dimension / other objective and direction; "
-             "earlier runs ended by max_cycles, by fitness_error, by early stopping, or by an exception raised by the objective after k evaluations; long first runs with tiny bounds for slowly decaying adaptive state) "
+             "earlier runs ended by max_cycles, by fitness_error, by early stopping, or by an exception raised by the objective after k evaluations; long first runs with tiny bounds for slowly decaying adaptive state; one pair of 14–26-cycle runs per class for schedules that only move late) "
              "then the final seeded call compared bit-for-bit with the same call on a freshly constructed instance; a case = one (history, final call); non-trivial = final run has ≥ 2 generations")
     js = []
     for name in optimizers.names():
@@ -46,6 +46,12 @@ def run(ctx):
                 hist.append(h)
             job["history"] = hist
             js.append(job)
+    # schedules that only start to move late in a run (shrinking zones, decaying step sizes, stagnation counters): one longer pair per class
+    for name in optimizers.names():
+        kind = rng.choice(["cont-sym", "cont"])
+        js.append({"name": name, "kind": kind, "specs": trace.task_specs(rng, kind, 3), "objective": rng.choice(["sphere", "rastrigin"]), "minmax": rng.choice(["min", "max"]),
+                   "seed": rng.randrange(1, 10 ** 6), "cfg": {"max_cycles": rng.choice([14, 20, 26]), "fitness_error": None}, "mode": "serial", "stop": "budget-long",
+                   "history": [{"seed": rng.randrange(1, 10 ** 6), "which": "same"}]})
     for j in jobs.param_sweep_jobs(rng, optimizers.names(), kinds=("cont-sym", "cont-tiny"), max_cycles=3):
         if rng.random() < 0.35:
             j["history"] = [{"seed": rng.randrange(1, 10 ** 6), "which": "same"}]
